@@ -109,6 +109,8 @@ def simulate (g : Group) (phase cause : String) (notif : List Nat) (at? : Option
     | "inline" => m.act c .recvInline
     | "parked" => m.act c (.recvOff 2)
     | "parkedfut" => m.act c (.recvOff 2)
+    -- off-reader limit 1: a second off-reader request is refused at once with an error response (C16's path)
+    | "parkedsat" => m.acts c [.recvOff 2, .recvInline, .inlineReturn (some 5)]
     | "queued" => (List.range nreq).foldl (fun m j => m.acts c [.recvInline, .inlineReturn (some (10 + j))]) m
     | "backlog" => (List.range nreq).foldl (fun m j => m.acts c [.recvInline, .inlineReturn (some (10 + j))]) m
     | _ => m
@@ -125,7 +127,9 @@ def simulate (g : Group) (phase cause : String) (notif : List Nat) (at? : Option
     | "drop" => m.act c (.readerExit .socketError)
     | "proto" => m.act c (.readerExit .protocolViolation)
     | "protog" => m.act c (.readerExit .protocolViolation)
-    | "toobig" => m.act c (.readerExit .protocolViolation)
+    | "toobig" => (m.acts c [.recvInline, .inlineReturn (some 4)]).act c (.readerExit .protocolViolation)
+    | "rerr" => m.act c (.readerExit .socketError)
+    | "werr" => m.acts c [.recvInline, .inlineReturn (some 3), .writerFail, .recvInline, .inlineReturn (some 4)]
     | "malformed" => m.act c (.readerExit .malformedFrame)
     | "malformeds" => m.act c (.readerExit .malformedFrame)
     | "malformedl" => m.act c (.readerExit .malformedFrame)
@@ -133,8 +137,9 @@ def simulate (g : Group) (phase cause : String) (notif : List Nat) (at? : Option
     | "cancel" => m.act c .selectCancelled
     | "abort" => m.act c .abort
     | _ => { m with ok := false }
-  let m := if m.st.phase == .draining then m.acts c [.writerFinish, .writerJoined] else m
-  if phase == "parked" || phase == "parkedfut" then m.act c (.offFinish 2 none) else m
+  let m := if m.st.phase == .draining then
+      (if m.st.writer == .finished then m.act c .writerJoined else m.acts c [.writerFinish, .writerJoined]) else m
+  if phase == "parked" || phase == "parkedfut" || phase == "parkedsat" then m.act c (.offFinish 2 none) else m
 
 /-! registry as seen through the hooks (`with_peer_registry` first; user connect callback `u` aliases key `u`) -/
 
@@ -176,7 +181,7 @@ def showTrace (g : Group) (phase : String) (tr : List Ev) : String :=
         | .disconnect h b => match g.userD h with
           | none => none
           | some u =>
-            let x := if phase == "parked" then (if b then "1" else "0") else "-"
+            let x := if phase == "parked" || phase == "parkedsat" then (if b then "1" else "0") else "-"
             let p := if g.reg == 0 then "-" else if goneFrom g r then "a" else if fullIn g r then "p" else "x"
             some s!"d{u}:{x}:{p}"
         | .cancel => none
@@ -253,13 +258,13 @@ def rxStep (g : Group) (idx : String) : List String → Group × String
   -> `<idx> accept hooks=1/1 ctx=<path>?who=7 err=h0c<0|1>`  |  `<idx> reject hooks=0/0 ctx=- err=h1c0` -/
 def hsStep (idx cfg req end_ : String) : String :=
   let cfg := if cfg == "-" then "" else cfg
-  if !(end_ == "close" || end_ == "malformed" || end_ == "text" || end_ == "frag1" || end_ == "frag3") then idx ++ " bad-op" else
+  if !(end_ == "close" || end_ == "malformed" || end_ == "text" || end_ == "frag1" || end_ == "frag3" || end_.startsWith "stall") then idx ++ " bad-op" else
   if pathAccepted cfg.toList req.toList then
     -- accepted: one connect / one disconnect, the handshake-aware hook sees the request's path and query;
     -- the built-in loop reports one Connection error iff the reader returned Err
     -- `frag1`/`frag3`: the upgrade request arrives in pieces (immaterial), then the socket is dropped
     let cause : Cause := if end_ == "close" then .close else if end_ == "text" then .protocolViolation
-      else if end_.startsWith "frag" then .socketError else .malformedFrame
+      else if end_.startsWith "frag" || end_.startsWith "stall" then .socketError else .malformedFrame
     let m := (Sim.mk init true none none).acts ⟨Gen.Lifecycle.facts, 2, 1, 64, false⟩
       [.handshakeOk, .hookStart, .hookReturn, .hookStart, .hookReturn, .enterReader, .readerExit cause, .writerFinish, .writerJoined]
     let nc := (m.st.trace.filter (fun e => match e with | .connect 0 => true | _ => false)).length
@@ -273,6 +278,12 @@ def step (g : Group) (ws : List String) : Group × String :=
   match ws with
   | "rx" :: idx :: rest => rxStep g idx rest
   | ["hs", idx, cfg, req, end_] => (g, hsStep idx cfg req end_)
+  -- an upgrade request delivered in pieces: whether the handshake parser let it through is the environment's choice
+  -- (`a` / `r`, recorded); a rejected one is a failed handshake whatever its path
+  | ["hs", idx, cfg, req, end_, outcome] =>
+    if outcome == "a" then (g, hsStep idx cfg req end_)
+    else if outcome == "r" then (g, hsStep idx "/no-such-configured-path" req end_)
+    else (g, idx ++ " bad-op")
   | ["hsrun", idx, nrej, nacc] =>
     -- nrej failed handshakes (each: `handshakeFail`, no hook), then nacc accepted connections, each its own run of the model
     let (nrej, nacc) := (natOf nrej, natOf nacc)
@@ -296,6 +307,7 @@ def step (g : Group) (ws : List String) : Group × String :=
   | ["scen", idx, phase, cause0, notif, at_, nreq, got] =>
     -- the panic payload (`cpanics`/`cpanicn`/`hpanics`/`hpanicn`) is immaterial: an unwind is an unwind
     let cause := if cause0.startsWith "cpanic" then "cpanic" else if cause0.startsWith "hpanic" then "hpanic" else cause0
+    -- `rerr` / `werr`: the transport fails a read / a write with the io::ErrorKind numbered in the nreq field (immaterial)
     let at? := if at_ == "-" then none else some (natOf at_)
     let m := simulate g phase cause (parseNotif notif) at? (natOf nreq)
     if !m.ok then (g, idx ++ " schedule-not-enabled")
@@ -303,7 +315,7 @@ def step (g : Group) (ws : List String) : Group × String :=
     else
       let s := m.st
       let inl := match m.inl with | some true => "1" | some false => "0" | none => "-"
-      let park := if phase == "parked" || phase == "parkedfut" then (if seenByHandlers s then "1" else "0") else "-"
+      let park := if phase == "parked" || phase == "parkedfut" || phase == "parkedsat" then (if seenByHandlers s then "1" else "0") else "-"
       -- registry while live: after all connect hooks of the trace, before the guard's events
       let liveTr := s.trace.filter (fun e => match e with | .connect _ => true | _ => false)
       let live := if g.reg == 0 || phase == "connecting" || phase == "late" || cause == "cpanic" then "-"
